@@ -1017,6 +1017,7 @@ func (e *Engine) appendModel(st *State, s, el Val, resT types.Type) Val {
 	newLen := mkAdd(s.L[2], elLen)
 	base := e.smt.Fresh("app", SU)
 	st.assume(mkNot(mkEq(base, "nil")))
+	e.allocatedNow(st, base)
 	cp := e.smt.Fresh("appcap", SInt)
 	st.assume(mkCmp(">=", cp, newLen))
 	for i, l := range e.flatten(elem) {
@@ -1103,11 +1104,12 @@ type modSet struct {
 	all      bool
 	chans    bool
 	closedCls map[string]bool
+	full     map[string]bool
 }
 
 func newModSet() *modSet {
 	return &modSet{allocs: map[*ssa.Alloc]bool{}, freevars: map[*ssa.FreeVar]bool{}, fields: map[string]bool{}, elems: map[string]types.Type{},
-		maps: map[string]*types.Map{}, ranges: map[*ssa.Range]bool{}, callees: map[string]bool{}, closedCls: map[string]bool{}}
+		maps: map[string]*types.Map{}, ranges: map[*ssa.Range]bool{}, callees: map[string]bool{}, closedCls: map[string]bool{}, full: map[string]bool{}}
 }
 
 func addrRoot(v ssa.Value) ssa.Value {
@@ -1223,6 +1225,7 @@ func (e *Engine) scanMods(ms *modSet, fn *ssa.Function, blocks map[*ssa.BasicBlo
 				if c.IsInvoke() {
 					name := "(" + typeKey(c.Value.Type()) + ")." + c.Method.Name()
 					ms.callees[simpleName(name)] = true
+					ms.full[name] = true
 					if inRepo(c.Value.Type()) {
 						if ct := e.contractFor(name); ct != nil && ct.HasMod {
 							e.addContractMods(ms, ct)
@@ -1235,6 +1238,7 @@ func (e *Engine) scanMods(ms *modSet, fn *ssa.Function, blocks map[*ssa.BasicBlo
 				if f := c.StaticCallee(); f != nil {
 					name := shortName(f.String())
 					ms.callees[simpleName(name)] = true
+					ms.full[name] = true
 					if e.isLibModel(name) {
 						if strings.HasSuffix(name, ".Lock") {
 							// guarded fields change at Lock
@@ -1324,6 +1328,9 @@ func (ms *modSet) merge(o *modSet) {
 	for k := range o.closedCls {
 		ms.closedCls[k] = true
 	}
+	for k := range o.full {
+		ms.full[k] = true
+	}
 }
 
 func (e *Engine) addContractMods(ms *modSet, ct *Contract) {
@@ -1407,8 +1414,43 @@ func (e *Engine) applyMods(st *State, fr *Frame, ms *modSet, loop bool) {
 			}
 		}
 	}
+	// ghost maps updated by contracts of callees (extern `update` clauses)
+	for _, ext := range e.spec.Externs {
+		if len(ext.Updates) == 0 {
+			continue
+		}
+		hit := ms.dyn && false
+		for n := range ms.full {
+			if matchName(n, ext.Func) {
+				hit = true
+				break
+			}
+		}
+		if hit {
+			for _, u := range ext.Updates {
+				if d, ok := e.spec.GhostMaps[u.Map]; ok {
+					e.heapArr(st, "gm!"+d.Name, arraySort(d.Args[0], d.Res))
+					e.havocHeapArr(st, "gm!"+d.Name)
+				}
+			}
+		}
+	}
 	if !loop {
 		return // a callee cannot change the caller's ghost state
+	}
+	// ghost maps updated by site rules of the unit under verification
+	for f := fr; f != nil; f = f.parent {
+		if f.contract == nil {
+			continue
+		}
+		for _, r := range f.contract.Sites {
+			if r.Action == "update" && r.Upd != nil {
+				if d, ok := e.spec.GhostMaps[r.Upd.Map]; ok {
+					e.heapArr(st, "gm!"+d.Name, arraySort(d.Args[0], d.Res))
+					e.havocHeapArr(st, "gm!"+d.Name)
+				}
+			}
+		}
 	}
 	// ghost counters
 	var gk []string
@@ -1430,6 +1472,12 @@ func (e *Engine) applyMods(st *State, fr *Frame, ms *modSet, loop bool) {
 		so := st.sort[g]
 		if so == "" {
 			so = SInt
+		}
+		if g == "$now" {
+			nv := e.smt.Fresh("now", SInt)
+			st.assume(mkCmp(">=", nv, st.ghost[g]))
+			st.ghost[g] = nv
+			continue
 		}
 		st.ghost[g] = e.smt.Fresh("g_"+g, so)
 	}
